@@ -298,6 +298,10 @@ def _build(case, sel=None, rng=None):
     tgt = np.array(tgt)
     ext = int(rng.integers(1, 9))
     exr = int(rng.integers(1, 9))
+    if (case["seed"] // 13) % 4 == 0:
+        ext = 0  # the selection covers EVERY atom of the target (a permutation of all atoms when it is shuffled)
+    if (case["seed"] // 17) % 5 == 0:
+        exr = 0
     if sel == "all":
         nt = nr = n
         ai = rai = None
